@@ -113,6 +113,22 @@ def run(tier):
             sc = {"meta": {"fam": "iso", "q": name + "+schema"}, "sql": sql, "rows": rows, "schema": {"zone_default": "z0", "lvl_default": {"$f": 7.5}}}
             if "sync" in modes and rep % 2: sc["mode"] = "sync"
             scen.append(sc)
+            # rows that carry a defaulted field with an explicit NULL, rows that lack only SOME of the defaulted fields, a field that is
+            # required AND has a default: whatever the validation fills in, it fills it into its own copy
+            rows2 = []
+            for r in rows:
+                r = dict(r)
+                k = rng.random()
+                if k < 0.3: r["zone_default"] = None
+                elif k < 0.5: r["zone_default"] = "zz"
+                k = rng.random()
+                if k < 0.3: r["lvl_default"] = None
+                elif k < 0.6: r["lvl_default"] = 3
+                if rng.random() < 0.5: r["unit_req"] = "F"
+                rows2.append(r)
+            sc2 = {"meta": {"fam": "iso", "q": name + "+schema2"}, "sql": sql, "rows": rows2, "schema": {"zone_default": "z0", "lvl_default": {"$f": 7.5}, "unit_req": "C"}, "schema_req": ["unit_req"]}
+            if "sync" in modes and rep % 2 == 0: sc2["mode"] = "sync"
+            scen.append(sc2)
     seqfam.run_scenarios(res, scen, "TraceIso", spec_dir=PIPE, tag="iso")
     # (b) two instances in one process
     pairs = []
